@@ -248,6 +248,7 @@ def p_argsort(ex, path, x, **kw):
         t.argsort_of = x
         t.perm_fn = (pi, inv)
         ex.__dict__.setdefault("argsort_log", []).append(pi)
+        ex.__dict__.setdefault("argsort_calls", []).append({"pi": pi, "inv": inv, "of": x, "result": t})
         return t
     path.add(ForAll([i], Implies(And(0 <= i, i < n), And(0 <= pi(i), pi(i) < n, inv(pi(i)) == i)), patterns=[pi(i)]))
     path.add(ForAll([i], Implies(And(0 <= i, i < n), And(0 <= inv(i), inv(i) < n, pi(inv(i)) == i)), patterns=[inv(i)]))
@@ -259,6 +260,7 @@ def p_argsort(ex, path, x, **kw):
     t.argsort_of = x
     t.perm_fn = (pi, inv)
     ex.__dict__.setdefault("argsort_log", []).append(pi)
+    ex.__dict__.setdefault("argsort_calls", []).append({"pi": pi, "inv": inv, "of": x, "result": t})
     return t
 
 
